@@ -177,7 +177,14 @@ pub fn cases(ctx: &Ctx, section: &str, unit: u64) -> Vec<Case> {
                                     .collect();
                                 // an error gadget right after a declaration that is emitted once:
                                 // the diagnostic belongs to the last zz_err_ token of the gadget
-                                let gadget: Vec<String> = match pr.below(11) {
+                                let gadget: Vec<String> = match pr.below(12) {
+                                    11 => vec![
+                                        "int zz_err_ovl ( int zz_x ) { return 0 ; }".into(),
+                                        "// between the candidates".into(),
+                                        format!("{indent}int zz_err_ovl ( uint zz_y ) {{ return 1 ; }}"),
+                                        "static const int zz_g11 =".into(),
+                                        format!("{indent}  zz_err_ovl ( true ) ;"),
+                                    ],
                                     8 => vec![format!(
                                         "{indent}static const int zz_p1 = 1 zz_err_extra_token ;"
                                     )],
@@ -479,11 +486,31 @@ fn metamorphic(
         ex.threads[0].key = (rng.next_u64(), rng.next_u64());
         let r = run_single(case, &ex, rep);
         rep.count("shift_variants", 1);
+        // notes below the insertion point move by k as well
+        let unshift_notes = |rest: &str| -> String {
+            rest.lines()
+                .map(|l| {
+                    if let Some(pos) = l.find(": note: ") {
+                        let mut it = l[..pos].rsplitn(3, ':');
+                        if let (Some(c), Some(ln), Some(f)) = (it.next(), it.next(), it.next())
+                            && f == base.file
+                            && let Ok(n) = ln.parse::<u32>()
+                            && n > k as u32
+                        {
+                            return format!("{f}:{}:{c}{}", n - k as u32, &l[pos..]);
+                        }
+                    }
+                    l.to_string()
+                })
+                .collect::<Vec<_>>()
+                .join("\n")
+        };
         match parse_diag(&r.text) {
             Some(d)
                 if d.file == base.file
                     && d.col == base.col
-                    && d.rest == base.rest
+                    && (d.rest == base.rest
+                        || unshift_notes(&d.rest) == base.rest.lines().collect::<Vec<_>>().join("\n"))
                     && d.line == base.line + k as u32 => {}
             other => {
                 rep.findings.push(finding(
@@ -610,6 +637,7 @@ pub fn judge(case: &Case, rep: &mut Report) {
             // Where does the model say the first failure is?
             let mut construct_line: Option<u32> = None;
             let mut expected_col: Option<u32> = None;
+            let mut expected_notes: Option<Vec<(String, u32, u32)>> = None;
             let (file, line, what): (String, u32, String) = match &m.verdict {
                 Verdict::Fail(f) => match (&f.kind, &f.at) {
                     // (a failing #if condition is reported where its first token was written, which may
@@ -658,6 +686,18 @@ pub fn judge(case: &Case, rep: &mut Report) {
                     };
                     construct_line = Some(gl);
                     expected_col = Some(t.col);
+                    if atom_name(t) == "zz_err_ovl" {
+                        // the notes of an ambiguous call name the candidates: the earlier
+                        // zz_err_ovl tokens of the gadget
+                        expected_notes = Some(
+                            toks[start..end]
+                                .iter()
+                                .filter(|x| atom_name(x) == "zz_err_ovl")
+                                .map(|x| (x.file.clone(), x.line, x.col))
+                                .take(2)
+                                .collect(),
+                        );
+                    }
                     (t.file.clone(), t.line, format!("gadget {}", atom_name(t)))
                 }
                 Verdict::Ok(toks) if task.api == Api::Compile => {
@@ -727,6 +767,31 @@ pub fn judge(case: &Case, rep: &mut Report) {
                     ),
                 ));
                 return;
+            }
+            if let Some(want) = &expected_notes {
+                let got: Vec<(String, u32, u32)> = r
+                    .text
+                    .lines()
+                    .filter_map(|l| {
+                        let pos = l.find(": note: ")?;
+                        let mut it = l[..pos].rsplitn(3, ':');
+                        let col: u32 = it.next()?.parse().ok()?;
+                        let line: u32 = it.next()?.parse().ok()?;
+                        Some((it.next()?.to_string(), line, col))
+                    })
+                    .collect();
+                rep.count("diagnostics_with_notes_checked", 1);
+                if &got != want {
+                    rep.findings.push(finding(
+                        "diagnostic-position",
+                        "note-position",
+                        format!(
+                            "{}: the notes of the ambiguous call should name the candidates at {want:?}, got {got:?}",
+                            case.label
+                        ),
+                    ));
+                    return;
+                }
             }
             let entry_canonical = case.fss[task.fs].resolve(&task.entry, "").unwrap_or_default();
             if file != entry_canonical || m.pasted.len() >= 2 {
